@@ -33,6 +33,7 @@ partial def parseCExpr (tp : TimeParser τ) : Sexp → CExpr τ
   | .list (.atom "any" :: cs) => .any (cs.map (parseCExpr tp))
   | .list [.atom "inv", c] => .inv (parseCExpr tp c)
   | .list [.atom "tracked", x, op, v] => .tracked x.nat! op.nat! v.int!
+  | .list [.atom "reslevel", r, op, .list am] => .resLevel r.nat! op.nat! (am.map Sexp.int!)
   | _ => .eternity
 
 def parsePat : Sexp → Pat
@@ -73,6 +74,31 @@ partial def parseStmt (tp : TimeParser τ) : Sexp → Stmt τ
   | .list [.atom "ret", v] => .ret v.int!
   | .list (.atom "lock" :: l :: body) => .withLock l.nat! (body.map (parseStmt tp))
   | .list [.atom "avail", l] => .logAvail l.nat!
+  | .list [.atom "qput", q, v] => .qPut q.nat! v.int!
+  | .list [.atom "qget", q] => .qGet q.nat!
+  | .list [.atom "qclose", q] => .qClose q.nat!
+  | .list (.atom "qiter" :: q :: n :: body) => .qIter q.nat! n.nat! (body.map (parseStmt tp))
+  | .list [.atom "cput", c, v] => .cPut c.nat! v.int!
+  | .list [.atom "cget", c] => .cGet c.nat!
+  | .list [.atom "cclose", c] => .cClose c.nat!
+  | .list (.atom "citer" :: c :: n :: body) => .cIter c.nat! n.nat! (body.map (parseStmt tp))
+  | .list [.atom "settracked", x, v] => .setTracked x.nat! v.int!
+  | .list [.atom "addtracked", x, v] => .addTracked x.nat! v.int!
+  | .list (.atom "borrow" :: r :: .list am :: bind :: body) =>
+    .borrow r.nat! (am.map Sexp.int!) bind.nat! (body.map (parseStmt tp))
+  | .list (.atom "claim" :: r :: .list am :: bind :: body) =>
+    .claim r.nat! (am.map Sexp.int!) bind.nat! (body.map (parseStmt tp))
+  | .list [.atom "reschange", r, k, .list am] => .resChange r.nat! k.nat! (am.map Sexp.int!)
+  | .list [.atom "levels", r] => .logLevels r.nat!
+  | .list [.atom "transfer", p, total, thr] => .transfer p.nat! (tm tp total) (optTm tp thr)
+  | .list (.atom "interval" :: period :: n :: body) => .interval (tm tp period) n.nat! (body.map (parseStmt tp))
+  | .list (.atom "delayiter" :: period :: n :: body) => .delayIter (tm tp period) n.nat! (body.map (parseStmt tp))
+  | .list (.atom "collect" :: progs) => .collect (progs.map (fun r => match r with
+      | .list (.atom "prog" :: ss) => ss.map (parseStmt tp)
+      | _ => []))
+  | .list (.atom "nestedrun" :: start :: progs) => .nestedRun (progs.map (fun r => match r with
+      | .list (.atom "prog" :: ss) => ss.map (parseStmt tp)
+      | _ => [])) (tm tp start)
   | _ => .log (-999)
 
 def showEvent (e : Event τ) : String :=
@@ -92,8 +118,15 @@ def runScenario (tp : TimeParser τ) (x : Sexp) : String :=
     let num (n : String) (d : Nat) : Nat := ((field fields n).bind List.head?).map Sexp.nat! |>.getD d
     let debug := num "debug" 1 == 1
     let start : τ := ((field fields "start").bind List.head?).map (tm tp) |>.getD TimeLike.zero
-    let decls : Decls τ := { flags := num "flags" 0, locks := num "locks" 0,
-                             tracked := ((field fields "tracked").getD []).map Sexp.int! }
+    let decls : Decls τ := { flags := num "flags" 0, locks := num "locks" 0, queues := num "queues" 0,
+                             chans := num "chans" 0,
+                             tracked := ((field fields "tracked").getD []).map Sexp.int!,
+                             resources := ((field fields "resources").getD []).map (fun r => match r with
+                               | .list (.atom "res" :: cap :: lv) => (lv.map Sexp.int!, cap.nat! == 1)
+                               | _ => ([], false)),
+                             pipes := ((field fields "pipes").getD []).map (fun x => match x with
+                               | .atom "inf" => none
+                               | x => some (tm tp x)) }
     let roots := ((field fields "roots").getD []).map (fun r => match r with
       | .list (.atom "prog" :: ss) => ss.map (parseStmt tp)
       | _ => [])
@@ -103,7 +136,9 @@ def runScenario (tp : TimeParser τ) (x : Sexp) : String :=
     let outcome := match w.crashed with
       | some e => "crash " ++ codeStr (w.exnCode e)
       | none => if finished then "ok" else "out-of-fuel"
-    let unfinished := (w.acts.toList.filter (fun a => a.status == .suspended && a.label ≥ 0)).map (·.label)
+    -- activities whose own code started but has not ended
+    let started (a : Activity τ) : Bool := a.isRoot || a.frames.any (fun f => match f with | .taskPayload _ => true | _ => false)
+    let unfinished := (w.acts.toList.filter (fun a => a.status == .suspended && a.label ≥ 0 && started a)).map (·.label)
     s!"{trace}|{outcome}|{TimeLike.repr w.time}|{codeStr unfinished}"
   | _ => "bad-op"
 
